@@ -188,6 +188,22 @@ def drive_arith(rec, quick):
                     continue
                 events.append({"e": "Dot", "ncols": ncols, "u": u, "v": v, "r": [doubles_to_grp(R.f64[8 * c:8 * c + 8]) for c in range(ncols)],
                                "_what": "%s%s nrows=%d" % (base, variant, nrows)})
+    # the two primitives under the dot products: dest = 0, dest += a * b (as a two-row dot product: a * b + dest * 1)
+    for rep in range(6 if quick else 60):
+        a, b, d0 = grp(rng), grp(rng), grp(rng)
+        A, B, D, Z = Buf(64), Buf(64), Buf(64), Buf(64, fill=0xEE)
+        A.f64[:], B.f64[:], D.f64[:] = grp_to_doubles(a), grp_to_doubles(b), grp_to_doubles(d0)
+        if not rec.progress("reim4_add_mul / reim4_zero rep %d" % rep):
+            continue
+        L.fn("reim4_add_mul", "v ppp")(D.addr, A.addr, B.addr)
+        L.fn("reim4_zero", "v p")(Z.addr)
+        rec.case(("add_mul", rep % 3))
+        ok = all(x.canaries_ok() for x in (A, B, D, Z)) and exact_small(D.f64) and A.f64.tolist() == grp_to_doubles(a) and B.f64.tolist() == grp_to_doubles(b)
+        if not ok or not (Z.f64 == 0).all():
+            rec.violation("reim4_add_mul / reim4_zero: write outside the group, source modified, non-integer output or non-zero after reim4_zero", {})
+            continue
+        one = [[1, 0]] * 4
+        events.append({"e": "Dot", "ncols": 1, "u": [a, d0], "v": [[b], [one]], "r": [doubles_to_grp(D.f64)], "_what": "reim4_add_mul (dest + a * b)"})
     # convolution window
     wmax = 5 if quick else 9
     for sa in range(0, wmax):
